@@ -330,7 +330,7 @@ def tri_case(draw):
     if scale != 1.0:
         V = [[x * scale for x in v] for v in V]
         tags.append(f"scale={scale}")
-    isolated = draw(st.integers(0, 9)) == 0
+    isolated = draw(st.sampled_from([False] * 9 + [True]))
     if isolated:
         V = V + [[0.5 * scale, 0.25 * scale, 0.0 if planar else 0.125 * scale]]
         tags.append("isolated-last-vertex")
@@ -339,7 +339,7 @@ def tri_case(draw):
             "a": a, "b": draw(st.integers(-20, 20)) / 10,
             "pre": draw(st.sampled_from(["none", "none", "angles"])),
             "conn": draw(st.sampled_from(["faces", "flat"])) if planar else "faces",
-            "vconn": draw(st.integers(0, 3)) == 0, "order": draw(st.sampled_from([1, 2, 4])),
+            "vconn": draw(st.sampled_from([True, False, False])), "order": draw(st.sampled_from([1, 2, 4])),
             "wseed": draw(st.integers(0, 10 ** 6)), "fmt": draw(st.sampled_from(FORMATS)),
             "group_seed": draw(st.integers(0, 10 ** 6))}
 
